@@ -1,6 +1,8 @@
 SPECIFICATION Spec
-CONSTANT MaxPlan = 3
-CONSTANT Depth = 13
+CONSTANT MaxPlan = 4
+CONSTANT MaxPc = 3
+CONSTANT MaxStops = 3
+CONSTANT Depth = 22
 CONSTRAINT Bound
 VIEW View
 INVARIANT InOrderOnce
